@@ -69,6 +69,7 @@ def parseAction (s : String) : Option Action :=
   | ["a", id] => do pure (.affected (← id.toNat?))
   | ["z", c] => do pure (.affectedZero (← c.toNat?))
   | ["T"] => some .tooLong
+  | ["PC"] => some .tooLong   -- a container with updatePtsChanged: `getDifference("seq-zero-pts-changed")`
   | ["CT", c] => do pure (.chTooLong (← c.toNat?))
   | ["W"] => some .wait
   | ["F"] => some .wait
